@@ -450,6 +450,32 @@ def run(run):
             run.undecided("R6", "set_register_taint|untainted-removes-entry", "no test of the written taint value found", F.loc(fn["body"]))
         else:
             run.check("R6", "set_register_taint|untainted-removes-entry", rem_t and not ins_t and ins_f and not rem_f, "writing an untainted value must remove the register's taint entry (dependence ends), a tainted one must replace it; untainted: remove=%s insert=%s, tainted: remove=%s insert=%s" % (rem_t, ins_t, rem_f, ins_f), F.loc(fn["body"]))
+        # the register map never HOLDS an untainted entry: State::eval and the merge decide by key presence, so a register is
+        # untainted exactly when it has no entry. Positive evidence of a violation: a Taint::Top written into the map.
+        from .lib import bindsrc as B
+        tops = []
+        for g in F.fns:
+            if g.get("dk") == "Closure" or not (g["mod"].endswith("taint::state") or g["mod"].endswith("analysis::taint")) or ("expn" in g and "Derive" in g["expn"]):
+                continue
+            roots_g = B.bodies(F, g)
+            for x in T.walk_fn(F, g):
+                rhs = None
+                target = None
+                if x.get("k") == "Assign":
+                    rhs, target = T.peel(x["r"]), x["l"]
+                elif T.is_call(x, ("insert", "or_insert", "replace")) and x.get("a") and len(x["a"]) >= 2:
+                    rhs, target = T.peel(x["a"][-1]), x["a"][0]
+                if rhs is None or not (rhs.get("k") == "Adt" and rhs.get("adt", "").endswith("Taint") and rhs.get("v") == "Top"):
+                    continue
+                into_map = any(y.get("k") == "Field" and y.get("fn") == "register_taint" for e_, h_ in B.sources(F, roots_g, target) for y in B.walk_with_closures(F, e_))
+                if into_map:
+                    tops.append((g, x))
+        key = "register_taint|no-untainted-entries"
+        if tops:
+            g, x = tops[0]
+            run.violated("R6", key, "%s writes Taint::Top into the register map: the entry stays, and State::eval (which decides by key presence) treats the register as tainted again -- the dependence does not end" % g["name"], F.loc(x))
+        else:
+            run.holds("R6", key, "no Taint::Top is written into register_taint", None)
         # generic update_def dispatch: each Def variant goes to its own transfer and then to update_def_post(old, new)
         cands = [f for f in F.find_fns(name="update_def", mod="analysis::taint") if f["dk"] != "Closure"]
         if not cands:
